@@ -344,6 +344,37 @@ def table_search(ck):
                     if abs(e) > Fraction(1, 10 ** 14): found.append((o, a, b, c, float(e)))
     return found
 
+def split_additivity(ck, hb, n, stats):
+    """solid_angle_edge_split_additive on the implementation: Omega(x;v1,v2,v3) = Omega(x;v1,v2,m) + Omega(x;v1,m,v3) for
+    m on the edge v2v3, x off the plane (>= 5 %), including wide angles (|Omega| > PI, outside the theorem's branch hypotheses)"""
+    rng = ck.rng; trip = []; cases = []
+    for k in range(n):
+        if k % 3 == 0:      # wide angles: fat triangle, x just above its centroid (|Omega| > PI: outside the theorem's branch hypotheses)
+            t = g.triangle(rng, max_aspect=2.0)[:3]
+            cen = g.mul(1 / 3.0, g.add(g.add(t[0], t[1]), t[2]))
+            x = g.add(cen, g.mul(rng.uniform(0.05, 0.12) * g.tri_size(t) * rng.choice([-1, 1]), g.tri_normal(t)))
+        else:
+            t = g.triangle(rng)[:3]
+            while True:
+                x, kind = g.point_for(rng, t, perturb=False)
+                if kind in ("off", "far"): break
+        u = rng.uniform(0.05, 0.95)
+        m = g.add(g.mul(1 - u, t[1]), g.mul(u, t[2]))
+        cs = [core.fcase("c16", [1], fl(x, t[0], t[1], t[2])), core.fcase("c16", [1], fl(x, t[0], t[1], m)), core.fcase("c16", [1], fl(x, t[0], m, t[2]))]
+        trip.append(cs); cases += cs
+    _, io, _ = core.run_harness(hb, cases, ck.workdir, tag="split")
+    res = dict(zip(cases, io)); out = []; worst = 0.0; wide = 0
+    for cs in trip:
+        v = [core.fparse(res[c])[1][0] for c in cs]
+        if abs(v[0]) > math.pi: wide += 1
+        e = abs(v[0] - v[1] - v[2]); worst = max(worst, e)
+        if not e <= 1e-12 * (abs(v[0]) + abs(v[1]) + abs(v[2])) + 1e-14:
+            out.append(("Vect3::solid_angle: not additive under an edge split",
+                        "solid angle of the triangle %.15g, of the two parts %.15g + %.15g (difference %.3g): cases %s" % (v[0], v[1], v[2], v[0] - v[1] - v[2], " ; ".join(c[:160] for c in cs)),
+                        dict(kind="case", cases=cs, impl=[res[c] for c in cs], replay_cmd="./check C16 --replay <this file>")))
+    stats["solid angle additivity under an edge split (implementation)"] = dict(cases=len(trip), bit_identical=0, rounding_class=0, mismatch=len(out), worst_rel=0.0, worst_abs=worst, wide_angle_cases=wide)
+    return out
+
 def main(replay=None):
     ck = core.Check(PROP, "proof")
     quick = ck.tier != "thorough"
@@ -359,6 +390,7 @@ def main(replay=None):
         if os.path.exists(cp): corpus = [l.strip() for l in open(cp) if l.strip() and not l.startswith("#")]
         cases = corpus + table_cases() + (gen_cases(ck.rng, 250, 260, 40) + edge_line_cases(ck.rng, 100, 150) if quick else gen_cases(ck.rng, 3000, 2500, 400) + edge_line_cases(ck.rng, 1500, 1500))
     found = evaluate(ck, hb, cases, stats)
+    if not replay: found += split_additivity(ck, hb, 150 if quick else 2000, stats)
     concrete = False
     # many monomials fail together when a table entry changes: report the first few per rule
     seen = {}; kept = []
